@@ -90,6 +90,9 @@ pub struct Device {
     pub al_requests: Vec<(u64, u8)>,
     pub sii_script: SiiScript,
     sii_busy: u32,
+    /// data latched by a read command that becomes visible in the data register only when the busy
+    /// period is over (as in a real ESC; until then the register holds the previous content)
+    sii_pending: Option<Vec<u8>>,
     sii_cmd_error: bool,
     pub sii_reads: u64,
     pub sii_writes: Vec<(u16, [u8; 2])>,
@@ -169,6 +172,7 @@ impl Device {
             al_requests: vec![],
             sii_script: SiiScript::default(),
             sii_busy: 0,
+            sii_pending: None,
             sii_cmd_error: false,
             sii_reads: 0,
             sii_writes: vec![],
@@ -342,6 +346,11 @@ impl Device {
             if self.sii_busy > 0 {
                 self.sii_busy -= 1;
             }
+            if self.sii_busy == 0 {
+                if let Some(p) = self.sii_pending.take() {
+                    self.mem[REG_SII_DATA..REG_SII_DATA + p.len()].copy_from_slice(&p);
+                }
+            }
         }
         if a < REG_DC_SYSTIME + 8 && a + len > REG_DC_SYSTIME && !self.systime_script.is_empty() {
             let i = (self.systime_reads as usize).min(self.systime_script.len() - 1);
@@ -437,11 +446,14 @@ impl Device {
             self.sii_reads += 1;
             self.sii_cmd_error = false;
             let n = if self.desc.sii_read8 { 8 } else { 4 };
-            for i in 0..n {
-                let b = self.eeprom.get(addr * 2 + i).copied().unwrap_or(0xff);
-                self.mem[REG_SII_DATA + i] = b;
-            }
+            let data: Vec<u8> = (0..n).map(|i| self.eeprom.get(addr * 2 + i).copied().unwrap_or(0xff)).collect();
             self.sii_busy = self.sii_script.busy_polls;
+            if self.sii_busy == 0 || self.sii_script.busy_forever {
+                self.mem[REG_SII_DATA..REG_SII_DATA + n].copy_from_slice(&data);
+                self.sii_pending = None;
+            } else {
+                self.sii_pending = Some(data);
+            }
         } else if c1 & 0x02 != 0 {
             self.sii_write_attempts += 1;
             if c0 & 0x01 == 0 || self.sii_script.write_cmd_errors > 0 {
